@@ -36,6 +36,9 @@
  * that are not a multiple of the machine word, so the default byte-wise swap/assign paths and the rounded Array stride are
  * exercised); an integer v is encoded in the whole record (redundantly: a trailing check field), a record whose fields do
  * not belong together decodes to a value below -2^50, which no reference array ever holds.
+ * kind TK = a Tuple that is NOT on the heap (header alloc = AllocStack, as `tuple(...)` makes): same elements as T; every op that would
+ * reallocate its block (push, append, pop, pushat, popat, rem, concat, assign, assignf, resize, pushelem, pushatelem) must raise — its own
+ * bounds error where the C code tests that first, else ValueError — and leave the Tuple as it was; no dup refusals (nothing is stored).
  * kinds: A = Array of Int, L = List of Int, T = heap Tuple of Int objects (identity = id), AS / LS = Array / List of String
  * (value v in 0..9999999 is the string "k%07d": strcmp order = numeric order).
  * comparators: 0 = sort() i.e. lt on the whole value, 1 = key(a) < key(b), 2 = key(a) > key(b), 3 = key(a) <= key(b),
@@ -59,7 +62,7 @@
 enum { K_NONE, K_A, K_L, K_T, K_AS, K_LS, K_A12, K_A5, K_NKIND };
 static const char* kind_name[] = { "-", "A", "L", "T", "AS", "LS", "A12", "A5" };
 typedef struct { int64_t val; int64_t id; } Ent;          /* id = -1 for value elements */
-typedef struct { int kind; int gc; var obj; Ent* ref; size_t n, cap; } Slot;
+typedef struct { int kind; int gc; int stk; var obj; Ent* ref; size_t n, cap; } Slot;   /* stk: Tuple not on the heap (kind K_T) */
 
 static Slot* SL;                 /* points to main's local array: GC-managed copies stay visible to the stack scan */
 static int dump_on = 1;
@@ -242,7 +245,7 @@ static char linebuf[8192];
 static size_t fmt_dump(char* b, size_t cap, Slot* s) {   /* uses cur (read_rep) */
   size_t o = 0;
   if (is_arr(s->kind)) o += snprintf(b + o, cap - o, "%s n=%zu s=%zu ", kind_name[s->kind], cnt_field, cur_nslots);
-  else o += snprintf(b + o, cap - o, "%s n=%zu ", kind_name[s->kind], cnt_field);
+  else o += snprintf(b + o, cap - o, "%s n=%zu ", s->stk ? "TK" : kind_name[s->kind], cnt_field);
   o += fmt_seq(b + o, cap - o, cur, cur_n);
   if (!links_ok) o += snprintf(b + o, cap - o, " BADLINKS");
   return o;
@@ -380,6 +383,17 @@ static var new_container(int k, Ent* es, size_t n) {
   if (k != K_T) for (size_t i = 0; i < n; i++) { if (is_rec(k)) dealloc_raw(tmp[i]); else del_raw(tmp[i]); }
   free(tmp);
   return obj;
+}
+
+/* a Tuple that is not on the heap: header with AllocStack (what the `tuple(...)` macro builds), items in a block of its own */
+typedef struct { struct Header h; struct Tuple t; } StackTuple;
+static var new_stack_tuple(Ent* es, size_t n) {
+  StackTuple* b = calloc(1, sizeof *b);
+  struct Tuple* t = header_init(&b->h, Tuple, AllocStack);
+  t->items = malloc((n + 1) * sizeof(var));
+  for (size_t i = 0; i < n; i++) { int cf = 0; t->items[i] = pool_obj(es[i].id, es[i].val, &cf); }
+  t->items[n] = Terminal;
+  return t;
 }
 
 /* ---- known finding F13 in a forked child ---- */
@@ -520,7 +534,8 @@ static Slot* slot_of(const char* tok, int must_exist) {
 }
 static void free_slot(Slot* s) {
   if (s->kind == K_NONE) return;
-  if (s->gc) del(s->obj); else del_raw(s->obj);
+  if (s->stk) { struct Tuple* t = s->obj; free(t->items); free((char*)s->obj - sizeof(struct Header)); }
+  else if (s->gc) del(s->obj); else del_raw(s->obj);
   free(s->ref); memset(s, 0, sizeof *s);
 }
 
@@ -569,15 +584,16 @@ int main(int argc, char** argv) {
       run_kfown(isat, (size_t)ns, kk, ii, es, n); free(es); continue;
     }
     if (!strcmp(cmd, "new") && nt >= 3) {
-      s = slot_of(toks[1], 0); int k = K_NONE;
+      s = slot_of(toks[1], 0); int k = K_NONE; int stk = !strcmp(toks[2], "TK");
       for (int j = 1; j < K_NKIND; j++) if (!strcmp(toks[2], kind_name[j])) k = j;
+      if (stk) k = K_T;
       if (!s || k == K_NONE) { O("bad-op"); continue; }
       size_t n = nt - 3; Ent* es = malloc((n + 1) * sizeof(Ent)); int ok = 1;
       for (size_t i = 0; i < n && ok; i++) ok = parse_elem(k, toks[3 + i], &es[i]);
       if (ok && k == K_T) for (size_t i = 0; i < n && ok; i++) for (size_t j = 0; j < i; j++) if (es[i].id == es[j].id) { ok = 0; break; }
       if (!ok) { free(es); O("bad-op"); continue; }
-      s->kind = k; s->gc = 0; s->ref = NULL; s->n = s->cap = 0;
-      s->obj = new_container(k, es, n);
+      s->kind = k; s->gc = 0; s->stk = stk; s->ref = NULL; s->n = s->cap = 0;
+      s->obj = stk ? new_stack_tuple(es, n) : new_container(k, es, n);
       ref_reserve(s, n); entcpy(s->ref, es, n); s->n = n; free(es);
       check_state(s, -1, force_iter); emit("new", "ok", s); continue;
     }
@@ -587,7 +603,7 @@ int main(int argc, char** argv) {
       if (!s || !src) { O("bad-op"); continue; }
       var c = NULL; V_TRY(exc, c = copy(src->obj));
       if (exc) { expect_exc("copy", exc, NULL); O("copy err=%s", v_exc_name(exc)); continue; }
-      s->kind = src->kind; s->gc = 1; s->obj = c; s->ref = NULL; s->n = s->cap = 0;
+      s->kind = src->kind; s->gc = 1; s->stk = 0; s->obj = c; s->ref = NULL; s->n = s->cap = 0;   /* the copy of a stack Tuple is a heap Tuple */
       ref_reserve(s, src->n); entcpy(s->ref, src->ref, src->n); s->n = src->n;
       if (c == src->obj) XF("C04-contents", "copy returned the same object");
       check_state(s, -1, force_iter); emit("copy", "ok", s); continue;
@@ -596,6 +612,46 @@ int main(int argc, char** argv) {
     if (nt < 2 || !(s = slot_of(toks[1], 1))) { O("bad-op"); continue; }
     int k = s->kind; size_t n = s->n; size_t nslots0 = is_arr(k) ? ((struct Array*)s->obj)->nslots : 0;
     Ent e; int64_t iv; size_t kpos;
+    if (s->stk && (!strcmp(cmd, "push") || !strcmp(cmd, "append") || !strcmp(cmd, "pop") || !strcmp(cmd, "pushat") || !strcmp(cmd, "popat") ||
+                   !strcmp(cmd, "rem") || !strcmp(cmd, "concat") || !strcmp(cmd, "assign") || !strcmp(cmd, "assignf") || !strcmp(cmd, "resize") ||
+                   !strcmp(cmd, "pushelem") || !strcmp(cmd, "pushatelem"))) {
+      /* a Tuple that is not on the heap refuses to reallocate: the op raises and nothing changes (the reference is left alone) */
+      var want = ValueError; int64_t kv; size_t kk;
+      if ((!strcmp(cmd, "push") || !strcmp(cmd, "append")) && nt == 3) {
+        if (!parse_elem(k, toks[2], &e)) { O("bad-op"); continue; }
+        if (cmd[0] == 'p') V_TRY(exc, push(s->obj, ARG(a, k, e, 1))); else V_TRY(exc, append(s->obj, ARG(a, k, e, 1)));
+      } else if (!strcmp(cmd, "pop") && nt == 2) { V_TRY(exc, pop(s->obj)); if (n == 0) want = IndexOutOfBoundsError; }
+      else if (!strcmp(cmd, "pushat") && nt == 4) {
+        if (!parse_elem(k, toks[2], &e) || !parse_i64(toks[3], &iv)) { O("bad-op"); continue; }
+        V_TRY(exc, push_at(s->obj, ARG(a, k, e, 1), $I(iv))); if (!ref_idx(n, iv, &kpos)) want = IndexOutOfBoundsError;
+      } else if (!strcmp(cmd, "popat") && nt == 3) {
+        if (!parse_i64(toks[2], &iv)) { O("bad-op"); continue; }
+        V_TRY(exc, pop_at(s->obj, $I(iv))); if (!ref_idx(n, iv, &kpos)) want = IndexOutOfBoundsError;
+      } else if (!strcmp(cmd, "rem") && nt == 3) {
+        if (!parse_val(k, toks[2], &iv)) { O("bad-op"); continue; }
+        Ent pr = { iv, -1 }; V_TRY(exc, rem(s->obj, ARG(a, K_A, pr, 1)));
+      } else if ((!strcmp(cmd, "concat") || !strcmp(cmd, "assign")) && nt == 3) {
+        src = slot_of(toks[2], 1); if (!src || src->kind != K_T || (src == s && cmd[0] == 'c')) { O("bad-op"); continue; }
+        if (cmd[0] == 'c') V_TRY(exc, concat(s->obj, src->obj)); else V_TRY(exc, assign(s->obj, src->obj));
+      } else if (!strcmp(cmd, "assignf") && nt == 4) {
+        src = slot_of(toks[2], 1); int64_t pv;
+        if (!src || src == s || src->kind != K_T || !parse_nat(toks[3], &pv) || pv > 2) { O("bad-op"); continue; }
+        int any = 0; for (size_t i = 0; i < src->n; i++) if (pf_keep((int)pv, src->ref[i].val)) any = 1;
+        var fn = $(Function, pv == 0 ? pf_all : pv == 1 ? pf_even : pf_none);
+        V_TRY(exc, assign(s->obj, filter(src->obj, fn))); if (!any) want = NULL;
+      } else if (!strcmp(cmd, "resize") && nt == 3) {
+        if (!parse_nat(toks[2], &iv) || iv > 100000) { O("bad-op"); continue; }
+        V_TRY(exc, resize(s->obj, (size_t)iv));
+      } else if ((!strcmp(cmd, "pushelem") && nt == 3) || (!strcmp(cmd, "pushatelem") && nt == 4)) {
+        int isat = cmd[4] == 'a';
+        if (!parse_i64(toks[2], &kv) || (isat && !parse_i64(toks[3], &iv))) { O("bad-op"); continue; }
+        var own = NULL; V_TRY(exc, own = get(s->obj, $I(kv)));
+        if (!exc) { if (isat) V_TRY(exc, push_at(s->obj, own, $I(iv))); else V_TRY(exc, push(s->obj, own)); }
+        if (!ref_idx(n, kv, &kk) || (isat && !ref_idx(n, iv, &kpos))) want = IndexOutOfBoundsError;
+      } else { O("bad-op"); continue; }
+      expect_exc(cmd, exc, want);
+      check_state(s, -1, force_iter); emit(cmd, res_of(exc, rb, sizeof rb), s); continue;
+    }
     if ((!strcmp(cmd, "push") || !strcmp(cmd, "append")) && nt == 3) {
       if (!parse_elem(k, toks[2], &e)) { O("bad-op"); continue; }
       if (k == K_T && ref_has_id(s, e.id)) { O("%s dup-refused", cmd); continue; }
